@@ -5,7 +5,7 @@ from __future__ import annotations
 from bluesky.utils import Msg
 
 from vf.common import rng_for
-from vf.devices import Det, Sig
+from vf.devices import CfgSig, Det
 from vf.oracles.common import quiet_logging
 from vf.reh import Harness
 from vf.worker import R
@@ -30,24 +30,6 @@ MANIFEST = {
     "note": "Sampled plans; bundle and monitor stream kinds (collect streams: C45).",
     "design_ref": "4 (C16)",
 }
-
-
-class CfgSig(Sig):
-    def __init__(self, *a, **k):
-        super().__init__(*a, **k)
-        self.cfg = 0
-
-    def read_configuration(self):
-        return {self.name + "_cfg": {"value": self.cfg, "timestamp": 3.0}}
-
-    def describe_configuration(self):
-        return {self.name + "_cfg": {"source": "fake:cfg", "dtype": "integer", "shape": []}}
-
-    def configure(self, *args, **kwargs):
-        self._rec("configure", args)
-        old = self.read_configuration()
-        self.cfg += 1
-        return old, self.read_configuration()
 
 
 def worker_init(tier, seed):
